@@ -234,6 +234,17 @@ func (x *Exec) newCtx(t *Obj, path string, ids *MapV) *Obj {
 			x.fail("container type %s without value type", t.Path)
 		}
 		ctx.Fields["ValCtx"] = x.newCtx(vt, path+".ValCtx", ids)
+		if w.Cfg.TypedefRefs && w.Or.Bool(path+".Type#typedef-ref") {
+			// mkRWCtx keeps the declared type (a typedef reference) in ctx.Type and dereferences only for the sub-contexts
+			ref := w.NewObj(t.Type, t.Path+"#ref", true)
+			for k, v := range t.Fields {
+				ref.Fields[k] = v
+			}
+			ref.Fields["KeyType"] = Nil{}
+			ref.Fields["ValueType"] = Nil{}
+			ref.Fields["IsTypedef"] = true
+			ctx.Fields["Type"] = ref
+		}
 	}
 	return ctx
 }
